@@ -567,6 +567,60 @@ int mon_finish(void) {
     return s_violations ? 1 : 0;
 }
 
+/* ================================================================== watchdog */
+static uint64_t s_wd_deadline_ms; /* 0 = disarmed */
+static char s_wd_key[160];
+static char s_wd_what[512];
+static int s_wd_started;
+
+static uint64_t wd_now_ms(void) {
+    struct timespec ts;
+    clock_gettime(CLOCK_MONOTONIC, &ts);
+    return (uint64_t)ts.tv_sec * 1000 + (uint64_t)ts.tv_nsec / 1000000;
+}
+
+static void *wd_main(void *arg) {
+    (void)arg;
+    for (;;) {
+        struct timespec ts = {0, 200 * 1000 * 1000};
+        nanosleep(&ts, NULL);
+        uint64_t dl = __atomic_load_n(&s_wd_deadline_ms, __ATOMIC_ACQUIRE);
+        if (dl && wd_now_ms() > dl) {
+            /* re-check once after a pause: a stopped (SIGSTOP, debugger) process must not look hung */
+            nanosleep(&ts, NULL);
+            if (__atomic_load_n(&s_wd_deadline_ms, __ATOMIC_RELAXED) != dl) {
+                continue;
+            }
+            mon_violation(s_wd_key, "scenario did not finish within its watchdog: %s", s_wd_what);
+            fprintf(stderr, "mon: watchdog fired (%s)\n", s_wd_key);
+            _exit(3);
+        }
+    }
+    return NULL;
+}
+
+void mon_watchdog_arm(unsigned seconds, const char *key, const char *what) {
+    if (!s_wd_started) {
+        pthread_t th;
+        pthread_attr_t at;
+        pthread_attr_init(&at);
+        pthread_attr_setdetachstate(&at, PTHREAD_CREATE_DETACHED);
+        if (pthread_create(&th, &at, wd_main, NULL) != 0) {
+            fprintf(stderr, "mon: cannot start watchdog thread\n");
+            exit(2);
+        }
+        pthread_attr_destroy(&at);
+        s_wd_started = 1;
+    }
+    snprintf(s_wd_key, sizeof(s_wd_key), "%s", key);
+    snprintf(s_wd_what, sizeof(s_wd_what), "%s", what ? what : "");
+    __atomic_store_n(&s_wd_deadline_ms, wd_now_ms() + (uint64_t)seconds * 1000, __ATOMIC_RELEASE);
+}
+
+void mon_watchdog_disarm(void) {
+    __atomic_store_n(&s_wd_deadline_ms, 0, __ATOMIC_RELAXED);
+}
+
 /* ================================================================== guard allocator */
 #define RZ 32
 #define HDR_MAGIC 0x6d6f6e2d67756172ULL /* "mon-guar" */
